@@ -7,7 +7,7 @@
    list-consuming reference option parsers below). *)
 From Coq Require Import ZArith Bool List.
 From NP Require Import Model.Bytes Model.Checksum Model.TcpOptions Model.HdrIP Model.HdrTransport
-  Model.HdrLink Model.HdrRfc.
+  Model.HdrLink Model.HdrRfc Model.HdrDNS.
 Import ListNotations.
 Open Scope Z_scope.
 
@@ -36,7 +36,11 @@ Inductive case :=
 (* every accessor of header [kind] on b; one entry per accessor, [-1] = panicked *)
 | CAcc (kind : Z) (b : list Z) (r : list (list Z))
 (* other helpers: r = result list, [-1] = panicked *)
-| CFn (fn : Z) (b : list Z) (args : list Z) (r : list Z).
+| CFn (fn : Z) (b : list Z) (args : list Z) (r : list Z)
+(* DNS query: d := h; d.Setheader(id); d.SetCount(qd,an,ns,qa); d.SetQuestion(join(labels,"."), qtype, qclass);
+   a = [id; qd; an; ns; qa; qtype; qclass]; out = d; dlen = d.GetDomainLen() (-1 = panicked);
+   getters = [GetId; GetQDCount; GetANCount; GetNSCount; GetARCount] *)
+| CDns (h a : list Z) (labels : list (list Z)) (panicked : bool) (out : list Z) (dlen : Z) (getters : list Z).
 
 (* ---------- small tools ---------- *)
 Definition zneq (a b : Z) : Z := if a =? b then 0 else 1.
@@ -344,6 +348,21 @@ Definition fn_spec (fn : Z) (b : list Z) (a r : list Z) : Z :=
     else ok (nth 1 r 0 =? 65535)
   else 1.
 
+(* ---------- DNS ---------- *)
+Definition dns_model (h a : list Z) (labels : list (list Z)) : option (list Z * Z * list Z) :=
+  match obind (dns_setheader h (arg a 0)) (fun d1 => dns_setCount d1 (arg a 1) (arg a 2) (arg a 3) (arg a 4)) with
+  | None => None
+  | Some d1 =>
+    let d := dns_setQuestion d1 labels (arg a 5) (arg a 6) in
+    Some (d, match dns_getDomainLen d with DOk n => n | DPanic => -1 | DFuel => -2 end,
+          match dns_getId d, dns_getQDCount d, dns_getANCount d, dns_getNSCount d, dns_getARCount d with
+          | Some i, Some q, Some n1, Some n2, Some n3 => [i; q; n1; n2; n3]
+          | _, _, _, _, _ => panic
+          end)
+  end.
+Definition wf_labelb (seg : list Z) : bool :=
+  (1 <=? length seg)%nat && (length seg <=? 63)%nat && bytes_okb seg.
+
 (* ---------- corr ---------- *)
 Definition emit_model (items : list (list Z)) (buf : list Z) : list Z * nat :=
   emit_items (map item_of items) (buf, 0%nat).
@@ -400,6 +419,11 @@ Definition corr (c : case) : Z :=
       end
   | CAcc kind b r => ok (lleqb (acc_model kind b) r)
   | CFn fn b a r => ok (leqb (fn_model fn b a) r)
+  | CDns h a labels panicked out dlen getters =>
+      match dns_model h a labels with
+      | None => ok panicked
+      | Some (d, n, g) => ok (negb panicked && leqb d out && (n =? dlen) && leqb g getters)
+      end
   end.
 
 (* ---------- spec ---------- *)
@@ -462,6 +486,20 @@ Definition spec (c : case) : Z :=
       if (length b <? hdr_size kind)%nat then 0
       else ok (lleqb (acc_fields kind r) (acc_rfc kind b))
   | CFn fn b a r => fn_spec fn b a r
+  | CDns h a labels panicked out dlen getters =>
+      if (length h <? 12)%nat then ok panicked
+      else if negb ((length h =? 12)%nat && forallb wf_labelb labels && forallb u16b a) then ok (negb panicked)
+      else
+        (* RFC 1035 4.1: ID, flags = RD only, the four counts; then QNAME labels, QTYPE, QCLASS *)
+        ok (negb panicked &&
+            leqb [bits out 0 16; bits out 16 16; bits out 32 16; bits out 48 16; bits out 64 16; bits out 80 16]
+                 [arg a 0; 256; arg a 1; arg a 2; arg a 3; arg a 4] &&
+            match rfc1035_labels (S (length labels)) (skipn 12 out) with
+            | Some (ls, rest) => lleqb ls labels && leqb rest [arg a 5 / 256; arg a 5 mod 256; arg a 6 / 256; arg a 6 mod 256]
+            | None => false
+            end &&
+            (dlen =? fold_right (fun seg acc => 1 + Z.of_nat (length seg) + acc) 1 labels) &&
+            leqb getters [arg a 0; arg a 1; arg a 2; arg a 3; arg a 4])
   end.
 
 (* ---------- tag: 0 = trivial ---------- *)
@@ -488,6 +526,8 @@ Definition tag (c : case) : Z :=
       if panicked then 0 else if enc_wf kind fields then 20 + kind else 30 + kind
   | CAcc kind b r => if (length b <? hdr_size kind)%nat then 0 else 40 + kind
   | CFn fn _ _ r => if leqb r panic then 0 else 50 + fn
+  | CDns h _ labels panicked _ _ _ =>
+      if panicked then 0 else if (length h =? 12)%nat && forallb wf_labelb labels then 70 else 71
   end.
 
 Definition judge (c : case) : list Z := [corr c; spec c; tag c].
